@@ -131,6 +131,22 @@ func analyse(r *rt.Rec, scope string, vals []uval) int {
 		byUUID[v.uuid] = append(byUUID[v.uuid], i)
 		byCanon[v.kind+"\x00"+v.canon] = append(byCanon[v.kind+"\x00"+v.canon], i)
 	}
+	// "the same on every call": every value again, in the reverse order (what
+	// was computed just before differs from the first pass), twice in a row
+	for i := len(vals) - 1; i >= 0; i-- {
+		v := &vals[i]
+		if strings.HasPrefix(v.uuid, "panic-") {
+			continue
+		}
+		var again, again2 string
+		if guard(r, "UUID/"+v.kind, v.show, func() { again = hex.EncodeToString(v.get()); again2 = hex.EncodeToString(v.get()) }) {
+			continue
+		}
+		if again != v.uuid || again2 != v.uuid {
+			r.Violation("uuid-nondeterministic/sequential/"+v.kind, fmt.Sprintf("the UUID of %s changes from call to call: %s, then %s and %s", v.show, v.uuid, again, again2), v.show)
+			break
+		}
+	}
 	for _, idx := range byUUID {
 		first := vals[idx[0]]
 		for _, j := range idx[1:] {
